@@ -114,11 +114,11 @@ func (rr Regions) Resize(mod Modifier) Region {
 	left, right := 0, 0
 	for k := 0; k+1 < len(rr); k++ {
 		n := rr[k].Len()
-		if n < lower {
+		if left == k && n < lower {
 			left = k + 1
 			lower -= n
 		}
-		if n < upper {
+		if right == k && n < upper {
 			right = k + 1
 			upper -= n
 		}
